@@ -15,6 +15,7 @@ def tyOf : String → Option Ty
   | "i64" => some (.int true 64) | "bool" => some .bool
   | "f32" => some (.float 32) | "f64" => some (.float 64)
   | "string" => some (.string none) | "hstr8" => some (.string (some 8)) | "hstr64" => some (.string (some 64))
+  | "hstr256" => some (.string (some 256))
   | "opti32" => some (.opt (.int true 32)) | "arr3i16" => some (.arr 3 (.int true 16))
   | "unit" => some .unit
   | "sstruct" => some (.struct [("a", .int false 8), ("b", .bool)])
